@@ -1682,6 +1682,18 @@ func checkTilecover(e *env) error {
 	z := maptile.Zoom(e.c.Zoom)
 	// the cover of an inverted bound once asked for a 2^32-entry map (fatal out of memory, fixed by
 	// b384ab8): leave an in-flight marker so that a regression is a recorded failure, not a dead worker.
+	for _, p := range vertices(e.g) {
+		if p[0] == 180 || p[0] == -180 {
+			stats.Class("tilecover:value with a vertex on lon +-180")
+			break
+		}
+	}
+	for _, p := range vertices(e.g) {
+		if a := math.Abs(p[1]); a == 85.0511287798066 || a == 85.0511 || a == 90 {
+			stats.Class("tilecover:value with a vertex on a clamp latitude / pole")
+			break
+		}
+	}
 	risky := hasInvertedBound(e.g)
 	if risky && invertedBoundBroken() {
 		stats.Excluded(keyInvertedBound)
@@ -1817,8 +1829,10 @@ func checkTilecover(e *env) error {
 			return fmt.Errorf("tilecover.Geometry(multi-geometry, %d) differs from the union of the member covers: %s", z, why)
 		}
 	}
+	// no tile outside the world (column 2^z is tolerated for a vertex at lon = 180: C13/C14's matter;
+	// a wrapped-around column or row such as uint32(-1) is not)
 	for t := range got {
-		if t.Z != z {
+		if lim := uint32(1) << uint32(z); t.Z != z || t.X > lim || t.Y > lim {
 			return fmt.Errorf("tilecover.Geometry returned tile %v at zoom %d", t, z)
 		}
 	}
